@@ -270,3 +270,237 @@ func c06NonNilAt(v ssa.Value, b *ssa.BasicBlock) bool {
 	}
 	return true
 }
+
+// ---- fifth round: element contents of a slice field whose value reaches the field store through phis ----
+
+// c06SliceLeaf is one alternative of a slice value: the value itself and the block in which this alternative is
+// committed (the predecessor of the phi edge that carries it, or the block of the store for a direct value).
+type c06SliceLeaf struct {
+	v  ssa.Value
+	at *ssa.BasicBlock
+	// edge guard: when `at` ends in the If whose successor is the phi's block, the outcome taken on that edge
+	edge *Guard
+}
+
+func c06SliceLeaves(v ssa.Value, at *ssa.BasicBlock, edge *Guard, seen map[ssa.Value]bool, out *[]c06SliceLeaf) bool {
+	for {
+		switch x := v.(type) {
+		case *ssa.Slice:
+			v = x.X
+			continue
+		case *ssa.ChangeType:
+			v = x.X
+			continue
+		}
+		break
+	}
+	if ph, ok := v.(*ssa.Phi); ok {
+		if seen[ph] {
+			return false // a loop-carried slice is not a finite choice of alternatives
+		}
+		if len(seen) > 8 {
+			return false
+		}
+		seen[ph] = true
+		for i, e := range ph.Edges {
+			pred := ph.Block().Preds[i]
+			var taken *Guard
+			if iff, isIf := pred.Instrs[len(pred.Instrs)-1].(*ssa.If); isIf && pred.Succs[0] != pred.Succs[1] {
+				taken = &Guard{Cond: iff.Cond, True: pred.Succs[0] == ph.Block(), At: pred}
+			}
+			if !c06SliceLeaves(e, pred, taken, seen, out) {
+				return false
+			}
+		}
+		return true
+	}
+	*out = append(*out, c06SliceLeaf{v: v, at: at, edge: edge})
+	return true
+}
+
+// c06CtorElems: the element contents of slice field f of the object that constructor fn returns, as a term over
+// fn's parameters - like Summary.Elems, but also when the slice that is filled reaches the field store through phis
+// (`x.F = helper(t)` with the helper inlined: `F = phi[nil, make]`) or when the object comes from a nested
+// constructor call. It claims, for every alternative of the stored value:
+//   - a fresh make whose fill (a copy from a slice of the make's own length into the make or a re-slice of it that
+//     starts at element 0, or indexed stores) is executed whenever that alternative is chosen (the fill's block
+//     dominates the block where the alternative is committed); the fill's contents are the result;
+//   - or nil, chosen only where the object whose slice is copied in the other alternatives is known to be nil
+//     (a dominating branch outcome `X == nil`, any spelling) - so a nil result never stands for a lost copy.
+//
+// Any other alternative (a shared slice, a loop-carried value, a make that is not certainly filled) gives no
+// result; why says which.
+func c06CtorElems(sums *Summaries, fn *ssa.Function, f *types.Var, depth int) (el *Term, why string) {
+	if fn == nil || fn.Blocks == nil {
+		return nil, "no body"
+	}
+	if depth > 4 {
+		return nil, "constructor chain too deep"
+	}
+	sm := sums.Ctor(fn)
+	if sm.Why != "" {
+		return nil, sm.Why
+	}
+	if e := sm.Elems[f]; e != nil {
+		return e, ""
+	}
+	tm := NewTermer(fn)
+	// the returned objects
+	var bases []ssa.Value
+	var collect func(v ssa.Value, d int)
+	collect = func(v ssa.Value, d int) {
+		v = stripPtr(v)
+		if c, ok := v.(*ssa.Const); ok && c.Value == nil {
+			return
+		}
+		if ph, ok := v.(*ssa.Phi); ok && d < 4 {
+			for _, e := range ph.Edges {
+				collect(e, d+1)
+			}
+			return
+		}
+		for _, x := range bases {
+			if x == v {
+				return
+			}
+		}
+		bases = append(bases, v)
+	}
+	for _, b := range fn.Blocks {
+		if r, ok := b.Instrs[len(b.Instrs)-1].(*ssa.Return); ok && len(r.Results) > 0 {
+			collect(r.Results[0], 0)
+		}
+	}
+	var alts []*Term
+	add := func(t *Term) {
+		for _, a := range alts {
+			if a.String() == t.String() {
+				return
+			}
+		}
+		alts = append(alts, t)
+	}
+	for _, base := range bases {
+		var stores []*ssa.Store
+		Instrs(fn, func(_ *ssa.BasicBlock, _ int, in ssa.Instruction) {
+			if st, ok := in.(*ssa.Store); ok {
+				if fa, isFA := st.Addr.(*ssa.FieldAddr); isFA && stripPtr(fa.X) == base && fieldOf(fa.X.Type(), fa.Field) == f {
+					stores = append(stores, st)
+				}
+			}
+		})
+		if call, ok := base.(*ssa.Call); ok {
+			callee := call.Call.StaticCallee()
+			if callee == nil {
+				return nil, "object comes from a dynamic call"
+			}
+			inner, w := c06CtorElems(sums, callee, f, depth+1)
+			if inner != nil {
+				add(Subst(inner, callArgTerms(tm, &call.Call)))
+			} else if len(stores) == 0 {
+				return nil, w
+			}
+		} else if _, ok := base.(*ssa.Alloc); !ok {
+			return nil, "returned object is neither an allocation nor a constructor call"
+		}
+		var srcObjs []ssa.Value // X of every `copy(make, X.F')` source
+		var nils []c06SliceLeaf
+		for _, st := range stores {
+			var leaves []c06SliceLeaf
+			if !c06SliceLeaves(st.Val, st.Block(), nil, map[ssa.Value]bool{}, &leaves) {
+				return nil, "the stored slice is loop-carried"
+			}
+			for _, lf := range leaves {
+				if c, isC := lf.v.(*ssa.Const); isC && c.Value == nil {
+					nils = append(nils, lf)
+					continue
+				}
+				mk, isMk := lf.v.(*ssa.MakeSlice)
+				if !isMk {
+					return nil, "an alternative of the stored slice is " + tm.Of(lf.v).String() + ", not a fresh make or nil"
+				}
+				filled := false
+				var visit func(v ssa.Value, d int)
+				visit = func(v ssa.Value, d int) {
+					if d > 3 || v.Referrers() == nil {
+						return
+					}
+					for _, ref := range *v.Referrers() {
+						switch x := ref.(type) {
+						case *ssa.Slice:
+							// only a re-slice that starts at element 0 keeps element i at index i
+							if k, isK := x.Low.(*ssa.Const); x.X == v && (x.Low == nil || (isK && k.Value != nil && k.Int64() == 0)) {
+								visit(x, d+1)
+							}
+						case *ssa.IndexAddr:
+							if x.X != v {
+								continue
+							}
+							for _, rr := range *x.Referrers() {
+								if s2, isSt := rr.(*ssa.Store); isSt && s2.Addr == x {
+									add(tm.Of(s2.Val))
+									if s2.Block() == lf.at || s2.Block().Dominates(lf.at) {
+										filled = true
+									}
+								}
+							}
+						case ssa.CallInstruction:
+							c := x.Common()
+							if b, isB := c.Value.(*ssa.Builtin); isB && b.Name() == "copy" && len(c.Args) == 2 && c.Args[0] == v {
+								add(&Term{Op: "elem", Args: []*Term{tm.Of(c.Args[1]), {Op: "unknown"}}})
+								// the copy is complete: the fresh slice is as long as the copied one
+								whole := false
+								if lc, isL := mk.Len.(*ssa.Call); isL && len(lc.Call.Args) == 1 {
+									if lb, isLB := lc.Call.Value.(*ssa.Builtin); isLB && lb.Name() == "len" && c06SameValue(fn, lc.Call.Args[0], c.Args[1], 0) {
+										whole = true
+									}
+								}
+								if whole && (x.Block() == lf.at || x.Block().Dominates(lf.at)) {
+									filled = true
+								}
+								if u, isU := stripPtr(c.Args[1]).(*ssa.UnOp); isU && u.Op == token.MUL {
+									if fa, isFA := u.X.(*ssa.FieldAddr); isFA {
+										srcObjs = append(srcObjs, fa.X)
+									}
+								}
+							}
+						}
+					}
+				}
+				visit(mk, 0)
+				if !filled {
+					return nil, "a fresh slice reaches the field on a path that does not fill it"
+				}
+			}
+		}
+		for _, nl := range nils {
+			gs := Guards(nl.at)
+			if nl.edge != nil {
+				gs = append(append([]Guard{}, gs...), *nl.edge)
+			}
+			ok := false
+			for _, g := range gs {
+				if GuardNilness(g, func(v ssa.Value) bool {
+					for _, o := range srcObjs {
+						if c06SameValue(fn, v, o, 0) {
+							return true
+						}
+					}
+					return false
+				}) == 1 {
+					ok = true
+				}
+			}
+			if !ok {
+				return nil, "the nil alternative is not confined to a nil source object"
+			}
+		}
+	}
+	switch len(alts) {
+	case 0:
+		return nil, "no element writes"
+	case 1:
+		return alts[0], ""
+	}
+	return &Term{Op: "phi", Args: alts}, ""
+}
